@@ -73,12 +73,16 @@ func winSummary(outs []string) string {
 		}
 	}
 	var parts []string
+	// sessions that are closed, once, are not listed: one that closed before it was announced is
+	// never shown to the application at all
 	for k := 0; k < len(states); k++ {
 		x := ""
 		if closes[k] > 1 {
 			x = fmt.Sprintf(":x%d", closes[k])
 		}
-		parts = append(parts, fmt.Sprintf("s%d:%s%s", k, states[k][0], x))
+		if states[k][0] != "closed" || x != "" {
+			parts = append(parts, fmt.Sprintf("s%d:%s%s", k, states[k][0], x))
+		}
 	}
 	parts = append(parts, "G:"+reg, "P:"+pend)
 	var cs []int
@@ -136,6 +140,13 @@ func famSesWin(t *testing.T, r *Rec) {
 	// the session dies between its construction and its registration
 	add("handshake-x-drop/websocket", "sesw arm handshake.registered", "sesw hs websocket 4 0 -", "sesw drop 0", "sesw release handshake.registered")
 	add("handshake-x-timeout/polling", "sesw arm handshake.registered", "sesw hs polling 4 0 -", "sesw adv 600", "sesw release handshake.registered")
+	// the peer goes away while an application listener of the server's flush / drain event of the open packet is running
+	for _, tr := range []string{"websocket"} {
+		for _, ev := range []string{"flush", "drain"} {
+			add(fmt.Sprintf("handshake-x-drop-in-listener/%s/%s", tr, ev), "sesw hsreact "+ev, fmt.Sprintf("sesw hs %s 4 0 -", tr), "sesw drop 0", "sesw adv 700")
+			add(fmt.Sprintf("handshake-x-drop-in-listener-soon-after/%s/%s", tr, ev), "sesw hsreact "+ev, fmt.Sprintf("sesw hs %s 4 0 -", tr), "sesw drop 0")
+		}
+	}
 	// the session closes between the lookup of an upgrade request and the attachment of the candidate
 	for _, how := range []string{"close1", "timeout"} {
 		body := []string{"sesw hs polling 4 0 -", "sesw arm ws.candidate.attach", "sesw ws s0 4 0"}
@@ -189,6 +200,22 @@ func famSesWin(t *testing.T, r *Rec) {
 		}
 		for k, evs := range afterClose {
 			r.Violate("C03", "C03/window/event-after-close/"+sc.name, fmt.Sprintf("s%d: events %v after its close event", k, evs), sc.lines)
+		}
+		if strings.HasPrefix(sc.name, "handshake-x-drop") {
+			// the application is handed a session while it is open, or not at all
+			for i, out := range detail {
+				if out == "-" || out == "ok" {
+					continue
+				}
+				for _, e := range parseObs(out).events {
+					if e.name == "connection" && e.args[0] != "open" {
+						r.Violate("C03", "C03/window/handed-over-not-open/"+sc.name, "the connection event hands the application a session in state "+e.args[0], sc.lines[:i+1])
+					}
+				}
+			}
+			if fin := parseObs(detail[len(detail)-1]); len(fin.states) > 0 && fin.states[0][0] != "closed" {
+				r.Violate("C03", "C03/window/session-outlived-its-connection/"+sc.name, "long after its peer went away during the handshake the session is "+fin.states[0][0], sc.lines)
+			}
 		}
 		end := parseObs(detail[len(detail)-1])
 		var live []int
